@@ -123,6 +123,11 @@ func (c *MiscreantCipher) Unmarshal(value string, s interface{}) error {
 	if err != nil {
 		return err
 	}
+	// DecodeString skips CR/LF and ignores the unused trailing bits of the last
+	// character; only accept the one canonical spelling of a sealed value.
+	if base64.RawURLEncoding.EncodeToString(ciphertext) != value {
+		return fmt.Errorf("invalid base64 encoding")
+	}
 
 	// decrypt the bytes
 	plaintext, err := c.Decrypt(ciphertext)
